@@ -16,12 +16,13 @@ from typing import Dict, Tuple, Iterable, Optional
 
 class Op:
     """Opaque operator application used as an atom."""
-    __slots__ = ("name", "args", "_h")
+    __slots__ = ("name", "args", "_h", "_r")
 
     def __init__(self, name: str, args: tuple):
         self.name = name
         self.args = tuple(args)
         self._h = hash((name, self.args))
+        self._r = None
 
     def __hash__(self):
         return self._h
@@ -30,7 +31,10 @@ class Op:
         return isinstance(other, Op) and self.name == other.name and self.args == other.args
 
     def __repr__(self):
-        return f"{self.name}({', '.join(map(repr, self.args))})"
+        # (the text is the canonical sort key of the atom: computed once - nested atoms made it exponential)
+        if self._r is None:
+            self._r = f"{self.name}({', '.join(map(repr, self.args))})"
+        return self._r
 
     def __lt__(self, other):
         return repr(self) < repr(other)
